@@ -102,6 +102,12 @@ CHECKS = {
         text='Theorems for every chain history that respects the sampler contract of C14 (a kept move passed the domain test g < threshold): every level holds exactly N samples sorted by g; the seeds are at or below the threshold (the p0-quantile floored at zero); if the chains renew the whole level then every sample of level k+1 is at or below the level-k threshold; the stored failure fraction and the product pf lie in [0, 1]. The implementation is tied to the model by trace validation (limit state and sampler class wrapped from outside; the model reproduces every level from the observed chain states on an order/sign-preserving integer image of g), and nestedness, sortedness, X = T(U) with g evaluated on X, and the pf formula are evaluated on un-mocked runs over four limit states. The statistical-error-band sentence is a labelled statistical test in the thorough tier.',
         note='Trusted: Lean kernel + standard axioms; hand-written model FF.Subset tied by trace validation; the chain contract is C14\'s theorem plus the domain function of the source (observed, not modelled); pf clause decided for runs reaching the zero level; distributional clause tested only.',
         ref='§5 C13'),
+    'C11': dict(
+        engine='real-analysis',
+        technique='Lean 4 proof over the reals about a code-shaped model of getU / getX / the two returned matrices / pdf / cdf with abstract marginals (round trips, mutually inverse Jacobians, each returned matrix is the derivative of the other map, factorisation at identity correlation, normal and lognormal latent-correlation identities) + tolerance checks of the implementation over eight marginal families',
+        text='Theorems: X->U->X and U->X->U are the identity (given the inverse pairs F_i / F_i^-1, Phi / Phi^-1, L / L^-1); the matrices returned by getU and getX are inverses of each other and each is the derivative (every partial, HasDerivAt) of the OTHER map; with identity latent correlation pdf = prod f_i and cdf = prod F_i; for normal marginals the standardised X equal the latent Z so both have correlation L L^T; the lognormal closed form inverts the lognormal correlation formula. PARTIAL: pdf integrates to one and cdf is the integral of the pdf are NOT theorems (measure theory over R^n); they are checked by quadrature on the implementation, which exhibits the recorded known finding (latent covariance scaled by the marginal standard deviations). The implementation is tied by tolerance checks (round trips, Jacobian products, finite differences, latent correlations, Gauss-Hermite correlation of the mapped variables, factorisation, quadrature) and a fault-injection test of the fallback root search.',
+        note='Trusted: Lean kernel + standard axioms + Mathlib; scipy.stats distributions, Gauss-Legendre quadrature, fsolve, Cholesky are external; tie at tolerances 1e-8 .. 2e-3; known finding: pdf/cdf use diag(std) rhoZ diag(std) (pinned by three repository tests).',
+        ref='§5 C11'),
 }
 
 NOT_YET = {}
